@@ -31,63 +31,10 @@ rng = np.random.default_rng(a.seed + 11)
 
 
 def build(layout, nonrep_groups, big_partial):
-    """layout: {(state, sub): n_calibration}; nonrep_groups: list of (state, sub) with outstanding units"""
-    rows = []
-    for (st, sub), n in layout.items():
-        for i in range(n):
-            last = float(rng.integers(300, 3000))
-            rows.append({"postal_code": st, "county_fips": sub, "geographic_unit_fips": f"c_{st}{sub}_{i}", LAST: last, "lower_bounds": float(rng.normal(0.02, 0.05)), "upper_bounds": float(rng.normal(0.02, 0.05))})
-    conf = pd.DataFrame(rows, columns=["postal_code", "county_fips", "geographic_unit_fips", LAST, "lower_bounds", "upper_bounds"])
-    rep = conf[["postal_code", "county_fips", "geographic_unit_fips", LAST]].copy()
-    rep[RES] = np.round(rep[LAST] * 1.05)
-    rep["reporting"] = 1
-    nr = []
-    for (st, sub) in nonrep_groups:
-        for i in range(2):
-            last = float(rng.integers(300, 3000))
-            partial = np.round(last * (2.5 if big_partial and i == 0 else 0.2))
-            nr.append({"postal_code": st, "county_fips": sub, "geographic_unit_fips": f"n_{st}{sub}_{i}", LAST: last, RES: partial, "reporting": 0})
-    non = pd.DataFrame(nr, columns=["postal_code", "county_fips", "geographic_unit_fips", LAST, RES, "reporting"])
-    unx = pd.DataFrame({"postal_code": ["AA"], "county_fips": ["x9"], "geographic_unit_fips": ["x9_1"], RES: [17.0], "reporting": [0]})
-    return conf, rep, non, unx
+    return v.gaussian_scene(layout, nonrep_groups, big_partial, rng)
 
 
-def stats_of(cal, alpha, seed=4191):
-    w = (cal[LAST] / cal[LAST].sum()).to_numpy()
-    return dict(
-        mu_lo=math_utils.weighted_median(cal.lower_bounds.values, w),
-        mu_hi=math_utils.weighted_median(cal.upper_bounds.values, w),
-        s_lo=math_utils.boot_sigma(cal.lower_bounds.values, conf=(3 + alpha) / 4, seed=seed),
-        s_hi=math_utils.boot_sigma(cal.upper_bounds.values, conf=(3 + alpha) / 4, seed=seed),
-        k=math_utils.compute_inflate(cal[LAST]),
-    )
-
-
-def oracle(conf, rep, non, unx, aggregate, alpha, lo_u, hi_u):
-    T = min(10, len(conf))
-    out = {}
-    keys = sorted(set(map(tuple, non[aggregate].values.tolist())) | set(map(tuple, rep[aggregate].values.tolist())) | (set(map(tuple, unx[aggregate].values.tolist())) if "county_classification" not in aggregate else set()))
-    for g in keys:
-        mn = (non[aggregate].apply(tuple, axis=1) == g) if len(non) else pd.Series([], dtype=bool)
-        counted = rep.loc[rep[aggregate].apply(tuple, axis=1) == g, RES].sum() + unx.loc[unx[aggregate].apply(tuple, axis=1) == g, RES].sum()
-        if not mn.any():
-            out[g] = (counted, counted)
-            continue
-        cal_g = conf[conf[aggregate].apply(tuple, axis=1) == g]
-        if len(cal_g) >= T:
-            cal = cal_g
-        else:
-            cal_s = conf[conf["postal_code"] == g[0]]
-            cal = cal_s if (len(aggregate) > 1 and len(cal_s) >= T) else conf
-        s = stats_of(cal, alpha)
-        wts = non.loc[mn, LAST].to_numpy()
-        q = (3 + alpha) / 4
-        sw, ssw = wts.sum(), (wts**2).sum()
-        lb = (wts * lo_u[mn.to_numpy()]).sum() - stats.norm.ppf(q, loc=sw * s["mu_lo"], scale=s["s_lo"] * np.sqrt(ssw + s["k"] * sw**2))
-        ub = (wts * hi_u[mn.to_numpy()]).sum() + stats.norm.ppf(q, loc=sw * s["mu_hi"], scale=s["s_hi"] * np.sqrt(ssw + s["k"] * sw**2))
-        partial = non.loc[mn, RES].sum()
-        out[g] = (np.round(max(lb + sw, partial) + counted), np.round(max(ub + sw, partial) + counted))
-    return keys, out
+oracle = v.gaussian_oracle
 
 
 counts = [0, 3, 9, 10, 11, 25] if a.tier != "quick" else [0, 3, 10, 25]
